@@ -32,6 +32,7 @@ structure Case where
   post : PinMap
   logs : Logs
   bad : Bool          -- some member reported err / panic / hang
+  warm : String := "" -- the <w> of `alert@<w>`
 
 def parseCase (ws : List String) : Option Case := do
   let (pre, post) ← splitArrow ws
@@ -40,9 +41,13 @@ def parseCase (ws : List String) : Option Case := do
     let base ← parseBase dm metrics
     let bad := (logs.splitOn "|").any (fun p => p.endsWith "=err" || p.endsWith "=panic" || p.endsWith "=hang")
     let logs' := if bad then some [] else parseLogs logs
+    -- `alert@<w>`: the handler saw an earlier alert that could do nothing; the round is an alert round
+    let warm := if kind.startsWith "alert@" then (kind.drop 6).toString else ""
+    let kind := if kind.startsWith "alert@" then "alert" else kind
     pure { r := { kind := kind, w := { members := ← parseKVs members, cidHash := ← parseKVs cids, untrusted := ← nats untr },
                   actors := ← listOf (parseActor base) actors, failed := ← parseOptNat failed, pre := ← parsePinset pm },
-           base := base, post := ← parsePinset pm', logs := ← logs', bad := bad }
+           base := base, post := ← parsePinset pm', logs := ← logs', bad := bad,
+           warm := if warm.startsWith "m" then "m" else warm }
   | _, _ => none
 
 /-- allocation a member chose for a cid: that of its LogPin entry -/
@@ -83,7 +88,8 @@ def answer (ws : List String) : String :=
   | some k =>
     if k.bad then "propfail member_call_failed arm=" ++ k.r.kind else
     if !k.r.pre.wf then "bad-case pre-not-sorted" else
-    let arm := k.r.kind ++ (if k.logs.all (fun l => l.2.isEmpty) then "-quiet" else "-acted")
+    let arm := k.r.kind ++ (if k.warm.isEmpty then "" else "-after-" ++ k.warm) ++
+      (if k.logs.all (fun l => l.2.isEmpty) then "-quiet" else "-acted")
     let failed := (clauses k.r k.base k.post k.logs).filter (fun c => !c.2)
     if !failed.isEmpty then
       "propfail " ++ ",".intercalate ((failed.map (·.1)).eraseDups) ++ " arm=" ++ arm
